@@ -22,7 +22,8 @@ EXPLANATION = (
     "into (return-identity summaries of the read functions), '$' members of a template are cloned, and placement creates missing "
     "intermediate nodes as fresh objects; (R4) the reference-path tokeniser's token class vs the quoting of bracket notation (regex AST); "
     "(R5) in apply_resultpath every raise is ResultPathMatchFailure and every may-raise sink sits in a handler that converts to it. Not "
-    "decided: the algebraic laws over all documents.")
+    "decided: the algebraic laws over all documents."
+    ' (R7) the template expander is never applied to data (members of the data named *.$ are not evaluated); (R4) the ResultPath tokeniser is decided from the AST of its regex: the token class excludes $ . [ ] and bracket-quoted names are captured without their quotes.')
 RULE_TEXT = "obligation = one function x effect kind, one guard x JSON kind, one call site; non-trivial = distinct (rule, site)"
 
 MUTATORS = {"append", "extend", "insert", "pop", "remove", "clear", "sort", "reverse", "update", "setdefault", "popitem", "__setitem__", "__delitem__"}
